@@ -40,6 +40,50 @@ pub unsafe extern "C" fn getenv(name: *const libc::c_char) -> *mut libc::c_char 
     f(name)
 }
 
+// ------------------------------------------------------------------------------------------ clock interposition
+
+/// reads of the system clock (process-global mutable state): allowed only inside `now()` / `find_current_local_time_type`
+pub static CLOCK_READS: AtomicU64 = AtomicU64::new(0);
+static REAL_CLOCK_GETTIME: AtomicU64 = AtomicU64::new(0);
+static REAL_GETTIMEOFDAY: AtomicU64 = AtomicU64::new(0);
+static REAL_TIME: AtomicU64 = AtomicU64::new(0);
+
+#[no_mangle]
+pub unsafe extern "C" fn clock_gettime(clk: libc::clockid_t, ts: *mut libc::timespec) -> libc::c_int {
+    CLOCK_READS.fetch_add(1, Ordering::Relaxed);
+    type F = unsafe extern "C" fn(libc::clockid_t, *mut libc::timespec) -> libc::c_int;
+    let p = real(b"clock_gettime\0", &REAL_CLOCK_GETTIME);
+    if p == 0 {
+        return -1;
+    }
+    let f: F = std::mem::transmute(p as usize);
+    f(clk, ts)
+}
+
+#[no_mangle]
+pub unsafe extern "C" fn gettimeofday(tv: *mut libc::timeval, tz: *mut libc::c_void) -> libc::c_int {
+    CLOCK_READS.fetch_add(1, Ordering::Relaxed);
+    type F = unsafe extern "C" fn(*mut libc::timeval, *mut libc::c_void) -> libc::c_int;
+    let p = real(b"gettimeofday\0", &REAL_GETTIMEOFDAY);
+    if p == 0 {
+        return -1;
+    }
+    let f: F = std::mem::transmute(p as usize);
+    f(tv, tz)
+}
+
+#[no_mangle]
+pub unsafe extern "C" fn time(t: *mut libc::time_t) -> libc::time_t {
+    CLOCK_READS.fetch_add(1, Ordering::Relaxed);
+    type F = unsafe extern "C" fn(*mut libc::time_t) -> libc::time_t;
+    let p = real(b"time\0", &REAL_TIME);
+    if p == 0 {
+        return -1;
+    }
+    let f: F = std::mem::transmute(p as usize);
+    f(t)
+}
+
 // ------------------------------------------------------------------------------------------ open interposition
 
 /// number of files opened through a RELATIVE path (such a lookup depends on the process-wide current directory)
@@ -65,8 +109,11 @@ pub fn monitor_excludes() -> Vec<(usize, usize)> {
         real(b"write\0", &REAL_WRITE);
         real(b"flock\0", &REAL_FLOCK);
         real(b"writev\0", &REAL_WRITEV);
+        real(b"clock_gettime\0", &REAL_CLOCK_GETTIME);
+        real(b"gettimeofday\0", &REAL_GETTIMEOFDAY);
+        real(b"time\0", &REAL_TIME);
     }
-    vec![a(&GETENV_CALLS), a(&RELATIVE_OPENS), a(&ALL_OPENS), a(&REAL_OPEN64), a(&REAL_OPEN), a(&REAL_OPENAT), a(&REAL_OPENAT64), a(&STD_STREAM_WRITES), a(&REAL_WRITE), a(&REAL_WRITEV), a(&FILE_LOCK_CALLS), a(&REAL_FLOCK), a(&MID_PROBE), a(&MID_CHANGES), a(&MID_PROBES)]
+    vec![a(&GETENV_CALLS), a(&RELATIVE_OPENS), a(&ALL_OPENS), a(&REAL_OPEN64), a(&REAL_OPEN), a(&REAL_OPENAT), a(&REAL_OPENAT64), a(&STD_STREAM_WRITES), a(&REAL_WRITE), a(&REAL_WRITEV), a(&FILE_LOCK_CALLS), a(&REAL_FLOCK), a(&MID_PROBE), a(&MID_CHANGES), a(&MID_PROBES), a(&CLOCK_READS), a(&REAL_CLOCK_GETTIME), a(&REAL_GETTIMEOFDAY), a(&REAL_TIME)]
 }
 
 unsafe fn note_open(path: *const libc::c_char) {
@@ -691,12 +738,14 @@ pub fn run(args: &Args) -> i32 {
             let rel_before = RELATIVE_OPENS.load(Ordering::Relaxed);
             let wr_before = STD_STREAM_WRITES.load(Ordering::Relaxed);
             let lk_before = FILE_LOCK_CALLS.load(Ordering::Relaxed);
+            let clk_before = CLOCK_READS.load(Ordering::Relaxed);
             let mid_before = MID_CHANGES.load(Ordering::Relaxed);
             regions.snapshot(&mut snap);
             let mp = MidProbe { regions: &regions, snap: &snap, exclude: &exclude };
             MID_PROBE.store(&mp as *const MidProbe as u64, Ordering::Relaxed);
             let out = std::panic::catch_unwind(std::panic::AssertUnwindSafe(|| (op.run)(&shared)));
             MID_PROBE.store(0, Ordering::Relaxed);
+            let clk_after = CLOCK_READS.load(Ordering::Relaxed);
             let changed = regions.diff(&snap, &exclude);
             let wr_after = STD_STREAM_WRITES.load(Ordering::Relaxed);
             let mid_after = MID_CHANGES.load(Ordering::Relaxed);
@@ -720,6 +769,9 @@ pub fn run(args: &Args) -> i32 {
             }
             if env_after != env_before {
                 rec.violation("environment_read_monitor", case(), json!("no getenv call during an operation"), json!({"getenv_calls": env_after - env_before}));
+            }
+            if clk_after != clk_before && !op.clock {
+                rec.violation("clock_read_monitor", case(), json!("the system clock is read only by now() and find_current_local_time_type()"), json!({"clock_reads": clk_after - clk_before}));
             }
             if FILE_LOCK_CALLS.load(Ordering::Relaxed) != lk_before {
                 rec.violation("file_lock_monitor", case(), json!("no advisory lock is taken on a file (kernel-wide state shared with every other reader)"), json!({"flock_calls": FILE_LOCK_CALLS.load(Ordering::Relaxed) - lk_before}));
@@ -819,13 +871,13 @@ pub fn run(args: &Args) -> i32 {
     rec.sub("monitor_selftest", selftest.clone());
     reset_ambient();
     remove_decoys();
-    if selftest["static_write_seen"] != true || selftest["tls_write_seen"] != true || selftest["getenv_seen"] != true || selftest["relative_open_seen"] != true || selftest["absolute_open_not_flagged"] != true || selftest["stderr_write_seen"] != true || selftest["mid_operation_probes_run"].as_u64().unwrap_or(0) == 0 {
+    if selftest["static_write_seen"] != true || selftest["tls_write_seen"] != true || selftest["getenv_seen"] != true || selftest["relative_open_seen"] != true || selftest["absolute_open_not_flagged"] != true || selftest["stderr_write_seen"] != true || selftest["clock_read_seen"] != true || selftest["mid_operation_probes_run"].as_u64().unwrap_or(0) == 0 {
         eprintln!("MACHINERY: monitor self-test failed: {selftest}");
         return 4;
     }
     rec.add(steps, histories - n as u64);
     rec.add_model(histories, steps, steps);
-    rec.set_rule("explored object = tree of operation histories (no deduplication possible: the subject exposes no state): every sequence of <= 3 steps over a 52-letter alphabet = 44 operations chosen to collide + 8 changes of ambient process state (current directory with decoy files, errno, TZ/TZDIR set at run time) + all length-4 histories over a 23-letter subset (thorough: + length 5 over 14 letters); after every operation: result digest == run-alone digest (fresh process, 6 environments: TZ/TZDIR, decoy current directory, initial errno), no changed byte in .data/.bss/TLS of the executable, no getenv call, no file opened through a relative path, no write to the standard streams, raw bytes of shared values unchanged; the injected readers repeat the memory comparison in the middle of the operation. non-trivial = histories of length >= 2");
+    rec.set_rule("explored object = tree of operation histories (no deduplication possible: the subject exposes no state): every sequence of <= 3 steps over a 52-letter alphabet = 44 operations chosen to collide + 8 changes of ambient process state (current directory with decoy files, errno, TZ/TZDIR set at run time) + all length-4 histories over a 23-letter subset (thorough: + length 5 over 14 letters); after every operation: result digest == run-alone digest (fresh process, 6 environments: TZ/TZDIR, decoy current directory, initial errno), no changed byte in .data/.bss/TLS of the executable, no getenv call, no file opened through a relative path, no write to the standard streams, no read of the system clock (except by now / find_current_local_time_type), raw bytes of shared values unchanged; the injected readers repeat the memory comparison in the middle of the operation. non-trivial = histories of length >= 2");
     rec.set_exhaustive(true);
     rec.outcome(&format!("{} distinct results", distinct_results.len()));
     rec.outcome("run-alone");
@@ -867,7 +919,10 @@ fn monitor_selftest(regions: &Regions, exclude: &[(usize, usize)]) -> Value {
         libc::write(2, b"".as_ptr() as *const libc::c_void, 0);
     }
     let s6 = STD_STREAM_WRITES.load(Ordering::Relaxed) > w0;
-    json!({"static_write_seen": s1, "tls_write_seen": s2, "getenv_seen": s3, "relative_open_seen": s4, "absolute_open_not_flagged": s5, "stderr_write_seen": s6, "mid_operation_probes_run": MID_PROBES.load(Ordering::Relaxed)})
+    let c0 = CLOCK_READS.load(Ordering::Relaxed);
+    let _ = std::time::SystemTime::now();
+    let s7 = CLOCK_READS.load(Ordering::Relaxed) > c0;
+    json!({"clock_read_seen": s7, "static_write_seen": s1, "tls_write_seen": s2, "getenv_seen": s3, "relative_open_seen": s4, "absolute_open_not_flagged": s5, "stderr_write_seen": s6, "mid_operation_probes_run": MID_PROBES.load(Ordering::Relaxed)})
 }
 
 pub fn replay(case: &Value, args: &Args) -> i32 {
@@ -906,10 +961,14 @@ pub fn replay(case: &Value, args: &Args) -> i32 {
             let r0 = RELATIVE_OPENS.load(Ordering::Relaxed);
             let w0 = STD_STREAM_WRITES.load(Ordering::Relaxed);
             let m0 = MID_CHANGES.load(Ordering::Relaxed);
+            let c0 = CLOCK_READS.load(Ordering::Relaxed);
             let mp = MidProbe { regions: &regions, snap: &snap, exclude: &exclude };
             MID_PROBE.store(&mp as *const MidProbe as u64, Ordering::Relaxed);
             v.push(digest_of(&(ops[i].run)(&shared)));
             MID_PROBE.store(0, Ordering::Relaxed);
+            if !ops[i].clock && CLOCK_READS.load(Ordering::Relaxed) != c0 {
+                mon = true;
+            }
             if !regions.diff(&snap, &exclude).is_empty() || GETENV_CALLS.load(Ordering::Relaxed) != e0 || RELATIVE_OPENS.load(Ordering::Relaxed) != r0 || STD_STREAM_WRITES.load(Ordering::Relaxed) != w0 || MID_CHANGES.load(Ordering::Relaxed) != m0 {
                 mon = true;
             }
